@@ -80,4 +80,72 @@ Section LinAlg.
                   ms ia i j (mg ia i j / mg a i i)) (rev (range 0 n)) ia) (range 0 n) ia.
 
   Definition norm (x : list T) : T := m_sqrt (fold_left (fun acc v => acc + v * v) x (zero : T)).
+  (* ---- jacobi_eigenvalue (cyclic Jacobi, src/linalg.rs): state a (upper triangle used), v, d, bw, zw ---- *)
+  Record jst := mkJ { j_a : list (list T); j_v : list (list T); j_d : list T; j_bw : list T; j_zw : list T }.
+  Definition eye (n : nat) : list (list T) := map (fun i => map (fun j => if Nat.eqb i j then (one : T) else (zero : T)) (range 0 n)) (range 0 n).
+  Definition diag (a : list (list T)) (n : nat) : list T := map (fun i => mg a i i) (range 0 n).
+  (* thresh = sqrt(sum_{j} sum_{i<j} a[(i,j)].re().powi(2)) / n; f64::powi(x, 2) is the correctly rounded square x * x (compiler-rt's __powidf2
+     computes 1 * (x * x), LLVM folds it to x * x), written so here to keep this evaluation free of the libm oracle table *)
+  Definition j_thresh (a : list (list T)) (n : nat) : F :=
+    let s := fold_left (fun th j => fold_left (fun th i => let r : F := m_re (mg a i j) in th + r * r) (range 0 j) th) (range 0 n) (zero : F) in
+    std_sqrt s / (castZ (Z.of_nat n) : F).
+  (* (a[x1], a[x2]) <- (g - s (h + g tau), h + s (g - h tau)) *)
+  Definition rot2 (m : list (list T)) (i1 j1 i2 j2 : nat) (s tau : T) : list (list T) :=
+    let g := mg m i1 j1 in let h := mg m i2 j2 in
+    let m := ms m i1 j1 (g - s * (h + g * tau)) in
+    ms m i2 j2 (h + s * (g - h * tau)).
+  Definition j_pair (it_num n : nat) (thresh : F) (st : jst) (p q : nat) : jst :=
+    let a := j_a st in let d := j_d st in
+    let ten : F := castZ 10 in let half : F := (one : F) / (castZ 2 : F) in
+    let gapq := m_abs (mg a p q) * ten in
+    let termp := gapq + m_abs (vg d p) in
+    let termq := gapq + m_abs (vg d q) in
+    if (Nat.ltb 4 it_num && (termp == m_abs (vg d p)) && (termq == m_abs (vg d q)))%bool then
+      mkJ (ms a p q (zero : T)) (j_v st) d (j_bw st) (j_zw st)
+    else if (thresh <=? std_abs (m_re (mg a p q) : F)) then
+      let h := vg d q - vg d p in
+      let term := m_abs h + gapq in
+      let t := if (term == m_abs h) then mg a p q / h
+               else let theta := h * half / mg a p q in
+                    let t := m_recip (m_abs theta + m_sqrt (theta * theta + (one : F))) in
+                    if (m_is_negative theta : bool) then - t else t in
+      let c := m_recip (m_sqrt (t * t + (one : F))) in
+      let s := t * c in
+      let tau := s / (c + (one : F)) in
+      let h := t * mg a p q in
+      let zw := upd (j_zw st) p (vg (j_zw st) p - h) in
+      let zw := upd zw q (vg zw q + h) in
+      let d := upd d p (vg d p - h) in
+      let d := upd d q (vg d q + h) in
+      let a := ms a p q (zero : T) in
+      let a := fold_left (fun a j => rot2 a j p j q s tau) (range 0 p) a in
+      let a := fold_left (fun a j => rot2 a p j j q s tau) (range (S p) q) a in
+      let a := fold_left (fun a j => rot2 a p j q j s tau) (range (S q) n) a in
+      let v := fold_left (fun v j => rot2 v j p j q s tau) (range 0 n) (j_v st) in
+      mkJ a v d (j_bw st) zw
+    else st.
+  Definition j_sweep (n : nat) (sd : jst * bool) (it_num : nat) : jst * bool :=
+    let '(st, done) := sd in
+    if done then sd else
+    let thresh := j_thresh (j_a st) n in
+    if nt_is_zero thresh then (st, true) else
+    let st := fold_left (fun st p => fold_left (fun st q => j_pair it_num n thresh st p q) (range (S p) n) st) (range 0 n) st in
+    let bw := map (fun i => vg (j_bw st) i + vg (j_zw st) i) (range 0 n) in
+    (mkJ (j_a st) (j_v st) bw bw (repeat (zero : T) n), false).
+  (* selection sort of d by real part, ascending, with the columns of v *)
+  Definition swap_l {A} (dflt : A) (l : list A) (i j : nat) : list A := upd (upd l i (nth j l dflt)) j (nth i l dflt).
+  Definition j_sort_step (n : nat) (dv : list T * list (list T)) (k : nat) : list T * list (list T) :=
+    let '(d, v) := dv in
+    let m := fold_left (fun m l => if ((m_re (vg d l) : F) <? (m_re (vg d m) : F)) then l else m) (range (S k) n) k in
+    if Nat.eqb m k then dv else
+    (swap_l (zero : T) d m k, map (fun row => swap_l (zero : T) row m k) v).
+  Definition j_sort (n : nat) (d : list T) (v : list (list T)) : list T * list (list T) := fold_left (j_sort_step n) (range 0 (n - 1)) (d, v).
+  Definition jacobi_eigenvalue (a : list (list T)) (max_iter : nat) : list T * list (list T) :=
+    let n := length a in
+    let d := diag a n in
+    let st0 := mkJ a (eye n) d d (repeat (zero : T) n) in
+    let '(st, _) := fold_left (j_sweep n) (range 0 max_iter) (st0, false) in
+    j_sort n (j_d st) (j_v st).
+  Definition smallest_ev (a : list (list T)) : T * list T :=
+    let '(e, v) := jacobi_eigenvalue a 200 in (vg e 0, map (fun row => nth 0 row (zero : T)) v).
 End LinAlg.
